@@ -110,3 +110,63 @@ func ZZ_C13_dkgRecordCrash() {
 	}
 	_ = re.Close()
 }
+
+func init() { zz.Register("ZZ_C13_migrationCrash", ZZ_C13_migrationCrash) }
+
+// ZZ_C13_migrationCrash: the first start of a node whose key folder holds a group file and a share but whose
+// key-generation database has no completed epoch (upgrade path): Process.Migrate records them as epoch 1. The
+// process dies at any persistence point of the database. The restart does what the daemon does -- migrate again
+// if the database still records no completed epoch -- and must come up without operator repair: the database
+// then holds ONE WHOLE completed epoch 1 with that group and that share, and the current record agrees.
+func ZZ_C13_migrationCrash() {
+	w := zzNewWorld(3)
+	dir := zz.TempDir("c13mig")
+	g, ep := w.group(3, 2, 1700000000, []byte("seed"))
+	sh := ep.Share(w.sch, 0)
+	open := func() *BoltStore {
+		s, err := NewDKGStore(dir)
+		if err != nil {
+			panic(err)
+		}
+		return s
+	}
+	process := func(s *BoltStore) *Process {
+		return NewDKGProcess(s, &zzIdent{w.pairs[0]}, util.NewFanOutChan[SharingOutput](), &zzClient{}, nil,
+			Config{Timeout: time.Hour, TimeBetweenDKGPhases: 0, KickoffGracePeriod: time.Hour}, zzfake.Logger())
+	}
+	// what LoadBeaconFromStore does on a start: no completed epoch in the database and a group file => migrate
+	start := func(s *BoltStore) error {
+		fin, err := s.GetFinished(zzBeacon)
+		if err != nil {
+			return err
+		}
+		if fin == nil {
+			return process(s).Migrate(zzBeacon, g, sh)
+		}
+		return nil
+	}
+	s1 := open()
+	k := zz.Choose("crash_at", 5) // 0: no crash; 1..4: the k-th persistence point of the database
+	zz.CrashAt(k)
+	var err1 error
+	crashed := zz.RunUntilCrash(func() { err1 = start(s1) })
+	if crashed {
+		zz.Tag("crash=" + zz.CrashedAt())
+	} else {
+		zz.Assert("migration_succeeds", err1 == nil)
+	}
+	_ = s1.Close()
+	// restart
+	s2 := open()
+	zz.Assert("restart_comes_up_without_operator_repair", start(s2) == nil)
+	fin, ferr := s2.GetFinished(zzBeacon)
+	cur, cerr := s2.GetCurrent(zzBeacon)
+	zz.Assert("records_are_readable", ferr == nil && cerr == nil && fin != nil && cur != nil)
+	if ferr != nil || cerr != nil || fin == nil || cur == nil {
+		return
+	}
+	zz.Assert("completed_record_is_the_migrated_epoch", fin.State == Complete && fin.Epoch == 1 && fin.FinalGroup != nil && fin.KeyShare != nil &&
+		fin.FinalGroup.Equal(g) && fin.KeyShare.Share.V.Equal(sh.Share.V) && fin.KeyShare.Share.I == sh.Share.I)
+	zz.Assert("current_record_agrees_with_the_completed_one", zzSameRecord(fin, cur))
+	_ = s2.Close()
+}
